@@ -115,10 +115,29 @@ func sanitize(s string) string {
 	return b.String()
 }
 
+// structCanon maps the typeKey of a named struct type to the canonical key of its class of identical
+// underlying structs (pointer conversions between such types alias the same storage). Filled by the engine.
+var structCanon = map[string]string{}
+
 func typeKey(t types.Type) string {
+	k := typeKey0(t)
+	if c, ok := structCanon[k]; ok {
+		return c
+	}
+	return k
+}
+
+func typeKey0(t types.Type) string {
 	t = types.Unalias(t)
 	switch x := t.(type) {
 	case *types.Named:
+		// named non-struct types share storage with their underlying type (pointer conversions are legal)
+		switch u := x.Underlying().(type) {
+		case *types.Basic:
+			return typeKey0(u)
+		case *types.Slice:
+			return "[]" + typeKey(u.Elem())
+		}
 		if x.Obj().Pkg() != nil {
 			p := x.Obj().Pkg().Path()
 			p = strings.TrimPrefix(p, modulePath+"/internal/")
@@ -130,7 +149,7 @@ func typeKey(t types.Type) string {
 		}
 		return x.Obj().Name()
 	case *types.Pointer:
-		return "*" + typeKey(x.Elem())
+		return "*" + typeKey0(x.Elem())
 	case *types.Slice:
 		return "[]" + typeKey(x.Elem())
 	case *types.Basic:
@@ -181,6 +200,9 @@ func leavesOf(t types.Type, prefix string, out *[]leaf) {
 func joinPath(a, b string) string {
 	if a == "" {
 		return b
+	}
+	if b == "" {
+		return a
 	}
 	return a + "." + b
 }
